@@ -11,7 +11,8 @@ and fed to the real receiver and to the model: delivered (cmd, payload, seqno) l
 run must agree.
 Oracle (model-independent): recorded REAL-cipher streams per suite; every single-byte flip / deletion / insertion
 position of the first two packets (sampled positions beyond), swaps, drops, replays, multi-edits; a fresh receiver keyed
-like the sender reads until it fails: what it delivered must be a prefix of what was sent.  Packets whose MAC input crosses 32 KiB / 64 KiB: the MAC on the wire
+like the sender reads until it fails AND keeps calling read_message over the rest of the stream: everything it ever
+delivers must be a prefix of what was sent (a rejected packet must not let the packets behind it through).  Packets whose MAC input crosses 32 KiB / 64 KiB: the MAC on the wire
 against an independent HMAC over seqno || whole packet, and bit flips in their tail.  Long streams (more than 2^16
 packets under one key set) with whole packets replayed / dropped / swapped at distance exactly 256 and 65536.
 """
@@ -263,6 +264,10 @@ def run_toy(ctx, Packetizer, Message, n_streams, exhaustive_streams):
 
 
 # ---------------------------------------------------------------------------------------------- real-cipher oracle
+KEEP_READING = 12       # read_message calls made after the first rejection (until the stream is exhausted)
+AFTER_REJECTION = []    # indices of messages that were delivered after a rejection (diagnostics for the report)
+
+
 def record_real(Packetizer, Message, rng, c, m, comp, salt, nmsgs):
     sock = L.SinkSock()
     ps = Packetizer(sock)
@@ -289,12 +294,17 @@ def replay_real(Packetizer, rng, c, m, comp, salt, seq, data, max_reads):
     L.activate_in(pr, c, m, comp, salt=salt)
     L.set_seq(pr, inn=seq)
     got, stop = [], None
-    for _ in range(max_reads):
+    for _ in range(max_reads + KEEP_READING):
         try:
             cmd, msg, _ = L.read_message_retrying(pr)
         except Exception as e:
-            stop = L.classify(e)
-            break
+            first = stop is None
+            stop = stop or L.classify(e)
+            if L.classify(e) == "eof" or (not first and not sock.data):
+                break
+            continue  # keep calling read_message over the rest of the stream: nothing more may be delivered
+        if stop is not None:
+            AFTER_REJECTION.append(len(got))
         got.append((cmd, msg.asbytes(), msg.seqno))
     return got, stop
 
@@ -343,6 +353,16 @@ def replay_epochs(Packetizer, rng, eps, seq0, data, extra_reads=2):
             got.append((cmd, msg.asbytes(), msg.seqno))
         if stop:
             break
+    if stop and stop != "eof":  # keep reading behind the rejection (same keys): nothing more may be delivered
+        for _ in range(KEEP_READING):
+            try:
+                cmd, msg, _ = L.read_message_retrying(pr)
+            except Exception as e:
+                if L.classify(e) == "eof" or not sock.data:
+                    break
+                continue
+            AFTER_REJECTION.append(len(got))
+            got.append((cmd, msg.asbytes(), msg.seqno))
     return got, stop
 
 
@@ -543,6 +563,7 @@ def run(ctx):
         eds += ex if full else rng.sample(ex, min(len(ex), 24))
         mode = "gcm" if "gcm" in c else "etm" if "etm" in m else "classic"
         for what, edited in eds:
+            del AFTER_REJECTION[:]
             got, stop = replay_real(Packetizer, rng, c, m, comp, si, seq, edited, nmsgs + 2)
             changed = edited != stream
             ctx.case((c, m, what), changed)
@@ -553,6 +574,8 @@ def run(ctx):
                 n_viol += 1
                 k = next((i for i, g in enumerate(got) if i >= len(sent) or g != sent[i]), len(sent))
                 sig = "accepted-altered:%s:%s" % (mode, what[0])
+                if AFTER_REJECTION and k >= AFTER_REJECTION[0]:
+                    sig = "delivered-after-rejection:%s:%s" % (mode, what[0])
                 ctx.fail(sig, case, "delivered %d messages; message %d differs from what was sent (%s)" % (
                     len(got), k, "extra" if k >= len(sent) else "got %r" % (got[k][:2],)))
             elif stop is None:
